@@ -35,7 +35,7 @@ try:
         rc, out = sh("/venv/bin/python /verif/harness/isolated.py %s --props %s --nproc %s --label x" % (wt, ",".join(props), a.nproc))
         for p in props:
             ls = [l for l in out.split("\n") if l.startswith("x %s " % p)]
-            res["checks"][p] = {"detected": any("VIOLATION" in l for l in ls), "lines": [l[:500] for l in ls]}
+            res["checks"][p] = {"detected": any(("violation=yes" in l) or ("VIOLATION" in l) or (" rc=1 " in l) for l in ls), "lines": [l[:500] for l in ls]}
 finally:
     sh("git -C /repo worktree remove --force %s" % wt)
 print(json.dumps(res, indent=1))
